@@ -170,6 +170,55 @@ theorem plain_degrades (w : Nat) (ops : List Op) :
       · exact hno op hop i ls hk l hls hm
     · exact absurd hm (by decide)
 
+/-! ## the hypotheses are decided by the model on every real case
+
+`1 ≤ w` (the width `Terminal().width` reports), "the written lines are text" (`OpOk`) and "the
+cursor starts on the row after the rows shown" are facts about the REAL run the model is compared
+with.  They are executable (`wfB`, `anchoredB` in Model/Section.lean); the driver answers them for
+every generated history (`wf`, `anchored` of entry `c15.run`) and the harness compares with `true`,
+so a real case outside the hypotheses shows up as a disagreement instead of passing vacuously. -/
+
+/-- what the driver's `wf` / `anchored` answers mean -/
+theorem wf_decides (w : Nat) (ops : List Op) (pre : List Str) :
+    (wfB w ops = true ↔ 1 ≤ w ∧ ∀ op ∈ ops, OpOk op) ∧
+    (∀ scr : Screen, anchoredB scr = true ↔ scr.cur = scr.rows.length) ∧
+    anchoredB (execs w { rows := [], cur := 0 } (pre.map .print)) = true := by
+  refine ⟨wfB_iff w ops, fun scr => by simp [anchoredB], ?_⟩
+  simpa [anchoredB] using prints_anchored w pre { rows := [], cur := 0 } rfl
+
+/-- `stream_refines` with its hypotheses replaced by the decider the driver evaluates, and started
+from ANY anchored screen (e.g. the one the `pre` lines of a harness case leave behind): the byte
+stream lexes to commands whose interpretation appends exactly the stacked contents. -/
+theorem stream_refines_dec (w : Nat) (ops : List Op) (scr : Screen)
+    (hwf : wfB w ops = true) (ha : anchoredB scr = true) :
+    ∃ cmds, lex (emit (run true w [] ops).2) = some cmds ∧
+      (execs w scr cmds).rows = scr.rows ++ stacked w (run true w [] ops).1 ∧
+      (execs w scr cmds).cur = (scr.rows ++ stacked w (run true w [] ops).1).length := by
+  obtain ⟨hw, hops⟩ := (wfB_iff w ops).mp hwf
+  have hc : scr.cur = scr.rows.length := by simpa [anchoredB] using ha
+  have hscr : scr = { rows := scr.rows, cur := scr.rows.length } := by rw [← hc]
+  rw [hscr]
+  exact stream_refines w hw ops hops scr.rows
+
+/-- On an output without ANSI support the stream of a well-formed history contains no ESC at all
+(`plain_degrades` with its side condition decided). -/
+theorem plain_no_esc_dec (w : Nat) (ops : List Op) (hwf : wfB w ops = true) :
+    ESC ∉ emit (run false w [] ops).2 := by
+  obtain ⟨_, hops⟩ := (wfB_iff w ops).mp hwf
+  refine (plain_degrades w ops).2.2.2 ?_
+  intro op hop i ls hk l hl
+  have := hops op hop
+  rcases hk with hk | hk <;> subst hk <;> exact (this l hl).2
+
+/-- `clearN_beyond` for every section of every reachable state (its hypothesis `hg` is the third
+conjunct of `screen_refines`). -/
+theorem clearN_beyond_reachable (w : Nat) (hw : 1 ≤ w) (ops : List Op) (newer : List Sec) (s : Sec)
+    (hs : s ∈ (run true w [] ops).1) (n : Nat) (hn : s.content.length ≤ n) :
+    clearSec w newer s n = clearSec w newer s 0 ∨
+    (s.content ≠ [] ∧ (clearSec w newer s n).1 = { content := [], rows := 0 } ∧
+      (clearSec w newer s n).2 = (clearSec w newer s 0).2) :=
+  clearN_beyond w hw newer s n hn ((screen_refines w hw ops []).2.2 s hs)
+
 /-! ## non-vacuity -/
 
 private def a7 : Str := "aaaaaaa".toList
@@ -212,5 +261,37 @@ example :
 /-- plain output: appended lines, `clear` and `overwrite` erase nothing -/
 example : emit (run false 5 [] [.create, .write 0 [b3], .clear 0, .overwrite 0 [c5, b3]]).2
     = "bbb\nccccc\nbbb\n".toList := by decide
+
+/-! ### every theorem with hypotheses, applied to the demo history (all hypotheses discharged) -/
+
+example : wfB 5 demo = true ∧ validOps 0 demo = true := by decide
+
+example := rows_of_line 5 (by decide) a7
+example := screen_refines 5 (by decide) demo ["$ run".toList]
+example := screen_is_spec 5 (by decide) demo ["$ run".toList]
+
+/-- `screen_refines_from`: the state after `demo` (two sections holding `a7`, counters 2) with the
+screen showing them; two more operations -/
+example := screen_refines_from 5 (by decide) [.write 1 [b3], .clearN 0 1] ["$ run".toList]
+  [{ content := [a7], rows := 2 }, { content := [a7], rows := 2 }]
+  { rows := ["$ run".toList, "aaaaa".toList, "aa".toList, "aaaaa".toList, "aa".toList], cur := 5 }
+  (by decide) (by decide) (by decide)
+
+/-- `clearN_beyond`: `clear(5)` on a section of two lines (three rows) -/
+example := clearN_beyond 5 (by decide) [] { content := [b3, a7], rows := 3 } 5 (by decide) (by decide)
+example := clearN_beyond_reachable 5 (by decide) demo [] { content := [a7], rows := 2 } (by decide) 3
+  (by decide)
+
+/-- `lex_emit`, `lex_emit_run`, `stream_refines`: the demo lines are text -/
+example := lex_emit (run true 5 [] demo).2 (fun c hc => (run_keeps true 5 demo [] (by simp)
+  (((wfB_iff 5 demo).mp (by decide)).2)).2 c hc)
+example := lex_emit_run true 5 demo ((wfB_iff 5 demo).mp (by decide)).2
+example := stream_refines 5 (by decide) demo ((wfB_iff 5 demo).mp (by decide)).2 ["$ run".toList]
+example := stream_refines_dec 5 demo { rows := ["$ run".toList], cur := 1 } (by decide) (by decide)
+example := plain_no_esc_dec 5 demo (by decide)
+
+/-- the decider is not constantly true: a line with ESC or a newline, and width 0, are rejected -/
+example : wfB 5 [.create, .write 0 [[ESC, '[', '0', 'J']]] = false ∧
+    wfB 5 [.create, .overwrite 0 ["a\nb".toList]] = false ∧ wfB 0 demo = false := by decide
 
 end Clikit.Props.C15
